@@ -19,7 +19,7 @@ def run(c):
     rng = random.Random(c.seed)
     c.tlc_expect_clean("MCDup", "MCDup")
     c.tlc_expect_clean("MCStream", "MCStreamProto")
-    k = 4 if c.thorough else 1
+    k = 24 if c.thorough else 1
     gens = [dict(kind="producers", n=1200 * k, seed=rng.getrandbits(40), depth=1, len=6, calls=10),
             dict(kind="twosided", n=1500 * k, seed=rng.getrandbits(40), depth=1, len=6, calls=14),
             dict(kind="pipelines", n=800 * k, seed=rng.getrandbits(40), depth=1, len=6, calls=10),
